@@ -106,12 +106,187 @@ def evidence(pid, tier, seed, meta, obligations, n_obl, n_dis, harness_rows, ver
 # the properties
 # ----------------------------------------------------------------------------------------
 
-CORE_FNS = [
-    "Repr::reserve", "Repr::ensure_modifiable", "Repr::make_shallow_clone", "Repr::replace_inner",
-]
+REPR_CORE = ["Repr::reserve", "Repr::ensure_modifiable", "Repr::make_shallow_clone", "Repr::replace_inner", "Repr::shrink_to"]
+REPR_EDIT = ["Repr::push_str", "Repr::truncate", "Repr::truncate_unchecked", "Repr::pop", "Repr::set_len", "Repr::remove",
+             "Repr::insert_str", "Repr::retain"]
+REPR_CTOR = ["Repr::new", "Repr::from_str", "Repr::from_static_str", "Repr::with_capacity", "Repr::from_char", "Repr::from_bool"]
+REPR_VIEW = ["Repr::len", "Repr::is_empty", "Repr::capacity", "Repr::as_bytes", "Repr::as_str", "Repr::is_unique", "Repr::is_heap_buffer"]
+HB = ["HeapBuffer::new", "HeapBuffer::with_capacity", "HeapBuffer::with_additional", "HeapBuffer::realloc", "HeapBuffer::dealloc",
+      "HeapBuffer::allocate_ptr", "HeapBuffer::layout_from_capacity", "HeapBuffer::set_len", "amortized_growth", "TextLen::new",
+      "Capacity::new", "InlineBuffer::new", "InlineBuffer::set_len", "StaticBuffer::new", "StaticBuffer::set_len"]
+LIB = ["LeanString::clear", "Drop::drop", "Clone::clone", "Clone::clone_from", "From<&LeanString>", "LeanString::try_* (delegation)",
+       "LeanString plain forms (delegation + unwrap_with_msg)", "fmt::Write::write_str", "Add<&str>", "AddAssign<&str>",
+       "Extend<char>", "FromIterator<char>"]
+
+COMPOSE = ("whole-operation claims for shared/static pre-states of push_str/insert_str/remove/retain are the Hoare composition of "
+           "the callee contract (reserve / ensure_modifiable, proved on the real callee for all storage kinds), the call-protocol "
+           "obligations (called once, right argument, nothing written before, no allocator call outside) and the modular body contract; "
+           "the composition rule itself is not machine-checked")
+MEMMOVE = ("byte-exact result of the intra-buffer memmove in remove/insert_str: inline storage complete (all 2^128 buffers), heap storage "
+           "at concrete capacities only (class B) - CBMC does not terminate on a memmove inside an object of symbolic size")
+
+prop("C01", level="proof",
+     claim="Per-operation Hoare triples {WF /\\ requires} op {WF /\\ text' = String-semantics(text, args) /\\ result} discharged by Kani/CBMC on the real "
+           "functions for arbitrary well-formed pre-states of every storage kind (symbolic capacity/length/refcount/stale bytes), with the "
+           "sequence semantics of String written as the post-condition; V-HIST (Verus) lifts the triples to every finite history over any "
+           "number of handles.",
+     functions=REPR_CORE + REPR_EDIT + REPR_CTOR + REPR_VIEW + LIB, verus=["v_hist"],
+     trust=["String's method semantics transcribed from its documentation as sequence equations", COMPOSE],
+     bounded_notes=[{"what": MEMMOVE}, {"what": "retain: text <= 6 bytes (loop unwound)"}, {"what": "extend/collect: <= 3 items"}],
+     not_covered=["iterator-driven operations beyond 3 items (each item is one push under contract)", "32-bit targets"])
 
 prop("C02", level="proof",
-     claim="Clone-on-write isolation as frame clauses of every mutator contract: when the pre-state block has rc > 1 the block's "
-           "header capacity, liveness and every byte in [0, capacity) are unchanged and rc moves by exactly the handles that left/joined; "
-           "borrowed static objects are byte-identical after every operation; V-HIST lifts this to all histories.",
-     functions=CORE_FNS, verus=[], trust=[], not_covered=[])
+     claim="Clone-on-write isolation as frame clauses of every mutator contract: when the pre-state block has rc > 1 its header capacity, "
+           "liveness and every byte in [0, capacity) (symbolic index over the capacity, not the length) are unchanged and rc moves by "
+           "exactly the handles that left/joined; borrowed static objects are byte-identical after every operation; realloc/in-place "
+           "writes only when rc == 1 (allocator-stub obligations); V-HIST: text of every other handle unchanged by every step, for any "
+           "number of handles with different lengths on one block.",
+     functions=REPR_CORE + REPR_EDIT + LIB, verus=["v_hist"], trust=[COMPOSE],
+     not_covered=["panicking outcomes other than the bad-index panics of C07 (no unwinding in the verifier)"])
+
+prop("C03", level="proof",
+     claim="Every allocator call of the crate goes through contract stubs that check: dealloc only of a live block, with the layout it was "
+           "allocated with, only when its count is 0; realloc only of a live block with its layout and only when rc == 1; per-operation "
+           "live-block deltas; Kani's pointer checks (no access outside an object or through a freed one) in every harness; V-HIST: rc == "
+           "number of handles is an invariant of all histories, a block is released only by its last owner and never again, no handles => "
+           "no live blocks.",
+     functions=REPR_CORE + HB + ["Drop::drop", "LeanString::clear", "Clone::clone_from"], verus=["v_hist"], trust=[],
+     not_covered=["FromIterator<char>'s bare Repr accumulator when the iterator panics (unwinding; see C18)"])
+
+prop("C05", level="proof",
+     claim="Every harness runs with an allocator that may refuse ANY request; for every operation and storage state: Err => handle bits, "
+           "reference count, block contents and the live set exactly as before, post-state well-formed (hence usable and released "
+           "normally by the drop contract), at most one allocator request per operation (so single failures are exhaustive on 64-bit); "
+           "plain forms panic iff the callee reports Err (unwrap_with_msg contract + delegation).",
+     functions=REPR_CORE + REPR_EDIT + REPR_CTOR + ["UnwrapWithMsg::unwrap_with_msg", "LeanString plain forms"], verus=["v_hist"],
+     trust=["the panic message reaching the panic payload is core::panic machinery (format_args of `{error}`), not observable in the verifier"],
+     not_covered=["pairs of failures inside one operation exist only in the 32-bit layout-switch path of realloc"])
+
+prop("C06", level="proof",
+     claim="additional / capacity / min_capacity / size_hint are unconstrained usize in the contracts of with_capacity, reserve, shrink_to, "
+           "push_str, insert_str, extend, collect: Ok => documented post-condition (capacity >= len + n, no overflow), Err => nothing "
+           "changed for the target and for every sharer; allocation size == 16 + capacity >= bytes later written; requests above 2^46 "
+           "bytes are refused by the allocator model.",
+     functions=["Repr::with_capacity", "Repr::reserve", "Repr::shrink_to", "Repr::push_str", "Repr::insert_str", "Extend<char>::extend",
+                "FromIterator<char>::from_iter", "amortized_growth", "Capacity::new", "TextLen::new", "HeapBuffer::layout_from_capacity"],
+     verus=["v_grow"], trust=["pre-state text lengths <= 2^16 (quick) / 2^40 (thorough)"], not_covered=[])
+
+prop("C07", level="proof",
+     claim="P-bad harnesses: under the negation of String's acceptance condition the real function never returns and none of its "
+           "state-changing callees (ensure_modifiable, reserve, set_len, truncate_unchecked, replace_inner, allocator) is reached before "
+           "the panic; P-good: under the acceptance condition no panic is reachable (all storage kinds incl. exactly-16-byte inline, "
+           "static, heap unique/shared, symbolic sizes). UTF-8 validity of every result: V-UTF8 (Verus) over the content equations.",
+     functions=["Repr::remove", "Repr::insert_str", "Repr::truncate", "LeanString::{try_,}{remove,insert,insert_str,truncate} (delegation)"],
+     verus=["v_utf8"],
+     trust=["String's acceptance condition (is_char_boundary; idx < len for remove) transcribed from its documentation"],
+     bounded_notes=[{"what": MEMMOVE}],
+     not_covered=["raw writes before the index check that do not go through one of the trapped callees"])
+
+prop("C08", level="proof",
+     claim="clone / clone_from / From<&LeanString> / to_lean_string(LeanString): allocator counters unchanged, result bitwise equal to the "
+           "source (same pointer for heap/static, 2-word copy for inline), rc + 1, dropping either leaves the other intact with the count "
+           "restored; all lengths (symbolic capacity).",
+     functions=["Repr::make_shallow_clone", "Clone::clone", "Clone::clone_from", "From<&LeanString>", "ToLeanString for LeanString"],
+     verus=[], trust=[], not_covered=["reference-count overflow arm (needs 2^63 handles)"])
+
+prop("C09", level="proof",
+     claim="from_str / from_static_str / from_char / from_bool / with_capacity / conversions: text <= 16 bytes => no allocator call and inline "
+           "storage; longer => exactly one alloc with capacity == len (allocation size 16 + len); inline edits that stay <= 16 bytes "
+           "perform no allocator call (push_str, insert_str, pop, remove, retain, truncate, clear on every well-formed inline value).",
+     functions=REPR_CTOR + ["From<&str>", "From<String>", "From<&String>", "From<Box<str>>", "From<Cow<str>>", "FromStr", "ToLeanString (integers: dispatch)"],
+     verus=[], trust=[], bounded_notes=[{"what": "conversion constructors: source text <= 20 bytes (String machinery in the harness); they are one Repr::from_str each"}],
+     not_covered=["32-bit inline limit of 8 bytes"])
+
+prop("C10", level="proof",
+     claim="from_static_str never allocates and points at the caller's bytes (len > 16); clone/pop/truncate/clear keep the pointer without "
+           "allocator calls; reserve/ensure_modifiable/push_str/insert_str/remove/retain move to inline or a fresh exclusive block with the "
+           "same text; F-static in every harness: the borrowed object (writable in the model) is byte-identical afterwards.",
+     functions=["Repr::from_static_str", "StaticBuffer::new", "StaticBuffer::set_len"] + REPR_CORE + REPR_EDIT, verus=[], trust=[COMPOSE],
+     not_covered=[])
+
+prop("C11", level="proof",
+     claim="capacity() == ghost capacity >= len for every well-formed value; with_capacity(n): capacity >= n; reserve(n) Ok: capacity >= len + n "
+           "and exclusive; push_str/insert_str into an exclusive string with room: no allocator call, pointer and capacity unchanged.",
+     functions=["Repr::capacity", "Repr::with_capacity", "Repr::reserve", "Repr::push_str", "Repr::insert_str", "Repr::as_slice_mut"],
+     verus=[], trust=[COMPOSE], not_covered=[])
+
+prop("C12", level="proof",
+     claim="amortized_growth verified twice on its real text (Kani contract over the full usize domain; Verus with mathematical integers): "
+           "== max(len + len/2, len + additional) unless saturated; every growth event of reserve (unique realloc, shared copy, "
+           "static->heap, inline->heap) has new capacity == that value; push_str/insert_str reach growth only through reserve(len of "
+           "argument) (call-protocol obligations); geometric-growth corollary in Verus.",
+     functions=["amortized_growth", "Repr::reserve", "HeapBuffer::with_additional", "HeapBuffer::realloc", "Repr::push_str", "Repr::insert_str"],
+     verus=["v_grow"], trust=[COMPOSE], not_covered=["measured reallocation counts of long push loops (corollary is arithmetic, not measured)"])
+
+prop("C13", level="proof",
+     claim="shrink_to(m) for every usize m and every storage/sharing state: text unchanged, capacity never grows (or is the inline size), >= len, "
+           ">= m unless it already was below, exactly max(len, m) (or inline) when the heap capacity exceeded it - shared or not; non-heap is "
+           "a no-op; F-buf; Err unchanged.",
+     functions=["Repr::shrink_to", "HeapBuffer::realloc", "HeapBuffer::with_capacity", "LeanString::{try_,}shrink_to{,_fit} (delegation)"],
+     verus=[], trust=[], not_covered=[])
+
+prop("C14", level="proof",
+     claim="DigitCount tables for u8..u64/i8..i64 verified in Verus on their real text against the closed form of digits10 (and that against "
+           "the recursive definition); the integer writer verified in Verus on the mechanically instantiated macro body (4 stated rewrite "
+           "rules) to produce sign ++ decimal digits for EVERY value of every <= 64-bit type; Kani proves the unrewritten code for the 8- "
+           "and 16-bit types over their full domain and the type dispatch for one value per type.",
+     functions=["DigitCount::digit_count (8 impls)", "NumToRepr::into_repr (10 integer impls)", "ToLeanString::try_to_lean_string (dispatch)"],
+     verus=["v_grow"],
+     trust=["Display for integers prints sign ++ decimal digits without leading zeros (documented core behaviour)",
+            "i128/u128 go through the itoa crate: assumed (dependency); NonZero wrappers are `.get()`",
+            "the four extraction rewrite rules of v_num (raw-pointer writes -> Vec writes)"],
+     not_covered=["i128 / u128 / NonZero<i128> / NonZero<u128> digits (itoa)"])
+
+prop("C15", level="proof",
+     claim="bool: both values; char: every scalar value against the UTF-8 encoding written from the definition; String/&str: from_str contract; "
+           "LeanString: shallow clone; generic Display: user Display emitting <= 3 pieces, failing after any piece or never => Err(Fmt) or "
+           "the concatenation (bounded).",
+     functions=["Repr::from_bool", "Repr::from_char", "ToLeanString::try_to_lean_string", "fmt::Write::write_str"],
+     verus=[],
+     trust=["core::fmt::write calls write_str with the pieces in order and propagates Err"],
+     not_covered=["f32/f64 round-tripping: the crate only forwards ryu::Buffer::format to from_str - floating point and an external "
+                  "dependency are outside this technique (not applicable); only the hand-over Repr::from_str is under contract"])
+
+prop("C16", level="proof",
+     claim="from_utf8 is parametric in the validator: with core::str::from_utf8 replaced by an arbitrary Result, Ok => text == input, Err => "
+           "the validator's error, exactly one validator call (unbounded length); lossy / UTF-16 decoders compared with String's on all "
+           "inputs of <= 3 bytes / <= 2 code units (bounded, thorough tier); their loop bodies are push/push_str under contract.",
+     functions=["LeanString::from_utf8", "LeanString::from_utf8_lossy", "LeanString::from_utf16", "LeanString::from_utf16_lossy"],
+     verus=[], trust=["String::from_utf8 delegates to the same core validator"],
+     bounded_notes=[{"what": "from_utf8_lossy: all byte strings of length <= 3; from_utf16{,_lossy}: all u16 strings of length <= 2 (thorough tier only)"}],
+     not_covered=["long inputs to the lossy/UTF-16 decoders beyond the bound"])
+
+prop("C17", level="proof",
+     claim="as_str()/as_bytes() are exactly (text pointer, len) of the ghost view for every representation (unbounded); ==, !=, cmp, "
+           "partial_cmp, < on pairs of arbitrary well-formed handles of different storage kinds equal the bytewise lexicographic order of "
+           "the ghost texts; the same against str, &str and Cow<str> in both argument orders; Hash feeds the text bytes then 0xff exactly "
+           "like str; Display prints exactly the text (texts <= 18 bytes: memcmp / hashing are unwound).",
+     functions=["PartialEq (9 impls)", "Eq", "Ord", "PartialOrd", "Hash", "Display", "Deref", "AsRef<str>", "AsRef<[u8]>", "Borrow<str>"],
+     verus=[], trust=["Debug delegates to str's Debug exactly as Display does (same shape, not run)"],
+     bounded_notes=[{"what": "comparison/hash/Display harnesses: texts <= 18 bytes (6 for Display)"}],
+     not_covered=["PartialEq<String> directions (identical body to the str ones)", "HashMap/BTreeMap lookups (consequence of Borrow + Eq/Hash/Ord agreement)"])
+
+prop("C20", level="proof",
+     claim="const size/alignment assertions are discharged by every build of the scratch copy; every well-formed value has last byte <= 0xD1 "
+           "(closure obligations *.wf), Some(r).is_some() and the round trip for every well-formed r incl. all 2^128-ish inline values; "
+           "the C01-C03 contract suite is re-run with debug assertions off (thorough tier).",
+     functions=["Repr (layout)", "Option<Repr> niche"] + REPR_CORE, verus=[],
+     trust=["source-level verification: optimised-vs-unoptimised codegen equivalence is the compiler's"],
+     not_covered=["32-bit layouts", "codegen equivalence of release builds", "--no-default-features / --all-features builds differ only in items not under contract (checked syntactically)"])
+
+PROPS["C20"]["level"] = "proof"
+
+
+def hist_correspondence(verus_dir, discharged_names):
+    """every `//@case X <- a b c` of v_hist.rs must name >= 1 obligation discharged in this run"""
+    missing = []
+    p = os.path.join(verus_dir, "v_hist.rs")
+    if not os.path.exists(p):
+        return ["v_hist.rs missing"]
+    for line in open(p):
+        m = re.match(r"//@case\s+(\w+)\s*<-\s*(.*)$", line)
+        if m:
+            names = m.group(2).split()
+            if not any(n in discharged_names for n in names):
+                missing.append("V-HIST case %s: none of its obligations ran and was discharged in this run" % m.group(1))
+    return missing
